@@ -503,8 +503,7 @@ class ValueMapping:
             if i == 0:
                 lo = cimtype.minvalue
             else:
-                _, previous_hi, _ = self._values_tuple(
-                    i - 1, valuemap_list, values_list, cimtype)
+                previous_hi = self._neighbor_bound(valuemap_list[i - 1], 2)
                 lo = previous_hi + 1
         else:
             lo = self._to_int(lo)
@@ -514,12 +513,27 @@ class ValueMapping:
             if i == len(valuemap_list) - 1:
                 hi = cimtype.maxvalue
             else:
-                next_lo, _, _ = self._values_tuple(
-                    i + 1, valuemap_list, values_list, cimtype)
+                next_lo = self._neighbor_bound(valuemap_list[i + 1], 1)
                 hi = next_lo - 1
         else:
             hi = self._to_int(hi)
         return (lo, hi, values_str)
+
+    def _neighbor_bound(self, valuemap_str, group):
+        """
+        Return the low (group=1) or high (group=2) bound of the ValueMap entry
+        next to an open range, or raise ModelError if that bound is open, too
+        (adjacent open ranges cannot be resolved against each other).
+        """
+        m = re.match(r'^(.*)\.\.(.*)$', valuemap_str)
+        bound_str = valuemap_str if m is None else m.group(group)
+        if bound_str == '':
+            raise ModelError(
+                _format("The value-mapped {0} has an open range in its "
+                        "ValueMap qualifier that is adjacent to another open "
+                        "range or to the unclaimed marker: {1!A}",
+                        self._element_str(), valuemap_str))
+        return self._to_int(bound_str)
 
     def _to_int(self, val_str):
         """
